@@ -1,8 +1,378 @@
-import Isotp.Process
+import Isotp.Proofs.Compose
 /-
-  C11 — property theorems (see DESIGN.md §6). Helper lemmas live in Isotp/Proofs.
+  C11 — "If one CAN frame anywhere in a multi-message exchange is lost or duplicated, every payload that is
+  delivered is still byte-identical to a payload that was sent and in sending order (never truncated, merged or
+  corrupted), and at most the one message whose frame was hit is missing (a duplicated Single Frame may be
+  delivered twice)."
+
+  Receiver side. Helper lemmas: Isotp/Proofs/Compose.lean (built on Proofs/Rx.lean, Proofs/Segment.lean, C09).
+
+  Setting as in C01 (`Compose.Link ca aa sb`): the sender has the validated configuration `ca` and the address
+  `aa`; the receiving layer `sb` has the mirrored receive address; the payloads `ps` are `Sendable` (non-empty,
+  < 2^32 bytes, ≤ the receiver's max_frame_size). `enc = Spec.segment (Spec.TxCfg.of ca aa)`,
+  `F = Compose.stream enc ps` = the data fields of all the frames in sending order;
+  `Compose.dropAt k F` / `Compose.dupAt k F` = `F` with frame `k` lost / doubled (copy next to the original).
+  The frames are handed to `_process_rx` through `Feeds` (Proofs/Rx.lean): arbitrary reception-neutral steps
+  (transmit passes, `send`, `recv`, clock, un-expired timeout checks) before, between and after them — in
+  particular no N_Cr timeout in between; the plain fold through the address filter (`Compose.linkFeed`) is the
+  special case used for the rx-queue statements.
+  `delivered s` = payloads put into the rx queue so far, `rxTrace s` = deliveries and reception errors, both
+  read from the event log.
+
+  What is NOT covered: the sender side of the same fault (a lost Flow Control / the sender's timeouts), and a
+  fault followed by an N_Cr timeout (the timeout only makes the receiver idle earlier: `C06.consecutive_frame_timeout`,
+  `C06.recovery`).
 -/
 namespace Isotp.C11
-open Isotp State
+open Isotp Isotp.State Isotp.Rx Isotp.Compose
+
+/-! ## the two sequence-number facts (wrap-around after 16 Consecutive Frames included) -/
+
+/-- A duplicated Consecutive Frame carries the sequence number just accepted (`lastSeq`), i.e. expected − 1;
+    it is never the expected one `(lastSeq + 1) mod 16`. -/
+theorem sn_duplicate (lastSeq : Nat) : lastSeq % 16 ≠ (lastSeq % 16 + 1) % 16 := by omega
+
+/-- After a lost Consecutive Frame the next one carries expected + 1, never the expected sequence number. -/
+theorem sn_after_loss (lastSeq : Nat) : (lastSeq + 1 + 1) % 16 ≠ (lastSeq + 1) % 16 := by omega
+
+/-- the same, by the 0-based index `j` of the Consecutive Frame (which carries SN `(j + 1) mod 16`): for every
+    `j`, also beyond the wrap-around -/
+theorem sn_index (j : Nat) : (j + 1) % 16 ≠ (j + 1 + 1) % 16 ∧ (j + 1 + 1) % 16 ≠ (j + 1) % 16 :=
+  ⟨sn_dup_ne j, sn_drop_ne j⟩
+
+/-! ## (b) the case analysis, one lemma per kind of fault
+
+  A message is either one Single Frame `[d]` that decodes to `sf |p| p`, or `segFrames g p pad n`: First Frame,
+  `n` full Consecutive Frames, last Consecutive Frame (`segment_shapes` below: the sender's frames always have
+  one of these two shapes). `IdleAt c0 a0 T s`: receiver idle with configuration `c0`, address `a0`, reception
+  trace `T`. `InSession g c0 a0 T p i s`: reception of `p` in progress, `i` Consecutive Frames consumed. -/
+
+/-- the frames `Spec.segment tc p` of the sender have one of the two shapes the case lemmas are about -/
+theorem segment_shapes (ca : Cfg) (aa : Addr) (sb : State) (h : Link ca aa sb) (p : Bytes) (hs : Sendable sb [p]) :
+    (∃ d esc cdl rdl, Spec.segment (Spec.TxCfg.of ca aa) p = [d] ∧
+        decode d aa.tx.txPrefix.length = some ⟨.sf p.length p esc, cdl, rdl⟩ ∧ (cdl ≤ 8 ∨ esc = true)) ∨
+    (∃ g n pad, g.pre = aa.tx.txPrefix ∧ Geom g sb.cfg sb.addr p n ∧
+        Spec.segment (Spec.TxCfg.of ca aa) p = segFrames g p pad n) := by
+  have ha := h.admissible [p] hs
+  exact wellFormed_cases _ p _ sb.cfg sb.addr (ha.hwf p (by simp)) ha.hpre (ha.hmax p (by simp))
+
+section cases
+variable {g : Spec.TxCfg} {c0 : Cfg} {a0 : Addr} {p : Bytes} {n : Nat} {T : List RxEv} {s s' : State}
+
+/-- no fault (reference): the message is delivered, no error, receiver idle -/
+theorem complete_message (hg : Geom g c0 a0 p n) (pad : Bytes) (h : IdleAt c0 a0 T s)
+    (hf : Feeds s (segFrames g p pad n) s') :
+    rxTrace s' = T ++ [.deliver p] ∧ s'.rxState = .idle :=
+  ⟨(seg_complete hg pad h hf).trace, (seg_complete hg pad h hf).idle⟩
+
+/-- First Frame lost: its `n + 1` Consecutive Frames are all rejected (`UnexpectedConsecutiveFrame` while idle),
+    nothing is delivered, the receiver is idle when the next message starts. -/
+theorem drop_first_frame (hg : Geom g c0 a0 p n) (pad : Bytes) (h : IdleAt c0 a0 T s)
+    (hf : Feeds s (dropAt 0 (segFrames g p pad n)) s') :
+    rxTrace s' = T ++ List.replicate (n + 1) (.err .UnexpectedConsecutiveFrame) ∧ s'.rxState = .idle ∧
+      delivered s' = delivered s := by
+  have h2 := seg_drop_ff hg pad h hf
+  refine ⟨h2.trace, h2.idle, ?_⟩
+  rw [h2.delivered, h.delivered]; simp [List.filterMap_append, payload_replicate_err]
+
+/-- A Consecutive Frame other than the last one (index `j < n`) lost: the next one has the wrong sequence number
+    (`WrongSequenceNumber`, reception aborted), the remaining ones are rejected while idle; nothing is delivered;
+    idle at the end. -/
+theorem drop_middle_frame (hg : Geom g c0 a0 p n) (pad : Bytes) (j : Nat) (hj : j < n) (h : IdleAt c0 a0 T s)
+    (hf : Feeds s (dropAt (j + 1) (segFrames g p pad n)) s') :
+    rxTrace s' = T ++ [.err .WrongSequenceNumber] ++ List.replicate (n - j - 1) (.err .UnexpectedConsecutiveFrame) ∧
+      s'.rxState = .idle ∧ delivered s' = delivered s := by
+  have h2 := seg_drop_mid hg pad j hj h hf
+  refine ⟨h2.trace, h2.idle, ?_⟩
+  rw [h2.delivered, h.delivered]
+  simp [List.filterMap_append, List.filterMap_cons, payload_replicate_err, payload_err]
+
+/-- The last Consecutive Frame lost: nothing delivered, nothing logged, the session is left open … -/
+theorem drop_last_frame (hg : Geom g c0 a0 p n) (pad : Bytes) (h : IdleAt c0 a0 T s)
+    (hf : Feeds s (dropAt (n + 1) (segFrames g p pad n)) s') :
+    InSession g c0 a0 T p n s' ∧ rxTrace s' = T ∧ delivered s' = delivered s := by
+  have h2 := seg_drop_last hg pad h hf
+  exact ⟨h2, h2.trace, by rw [sess_delivered h2, h.delivered]⟩
+
+/-- … and the next message, if segmented, is still received intact: `InterruptedWithFirstFrame`, the new session
+    wins. -/
+theorem next_segmented_after_open_session {g' : Spec.TxCfg} {q : Bytes} {i : Nat} (hg : Geom g c0 a0 p n) (pad : Bytes)
+    (h : InSession g' c0 a0 T q i s) (hf : Feeds s (segFrames g p pad n) s') :
+    rxTrace s' = T ++ [.err .InterruptedWithFirstFrame] ++ [.deliver p] ∧ s'.rxState = .idle :=
+  ⟨(open_then_segmented hg pad h hf).trace, (open_then_segmented hg pad h hf).idle⟩
+
+/-- … if it is a Single Frame: delivered, then `InterruptedWithSingleFrame`. -/
+theorem next_single_after_open_session {g' : Spec.TxCfg} {q : Bytes} {i : Nat} (pre d : Bytes) (esc : Bool)
+    (cdl rdl : Nat) (hpre : pre.length = a0.rx.rxPrefixSize)
+    (hd : decode d pre.length = some ⟨.sf p.length p esc, cdl, rdl⟩) (h8 : cdl ≤ 8 ∨ esc = true)
+    (h : InSession g' c0 a0 T q i s) (hf : Feeds s [d] s') :
+    rxTrace s' = T ++ [.deliver p] ++ [.err .InterruptedWithSingleFrame] ∧ s'.rxState = .idle :=
+  ⟨(open_then_sf pre p d esc cdl rdl hpre hd h8 h hf).trace, (open_then_sf pre p d esc cdl rdl hpre hd h8 h hf).idle⟩
+
+/-- A Single Frame lost: the message is simply missing. -/
+theorem drop_single_frame (d : Bytes) (h : IdleAt c0 a0 T s) (hf : Feeds s (dropAt 0 [d]) s') :
+    rxTrace s' = T ∧ s'.rxState = .idle :=
+  ⟨(sf_drop d h hf).trace, (sf_drop d h hf).idle⟩
+
+/-- First Frame duplicated: the session is restarted with the same data (`InterruptedWithFirstFrame`), the message
+    is delivered once. -/
+theorem dup_first_frame (hg : Geom g c0 a0 p n) (pad : Bytes) (h : IdleAt c0 a0 T s)
+    (hf : Feeds s (dupAt 0 (segFrames g p pad n)) s') :
+    rxTrace s' = T ++ [.err .InterruptedWithFirstFrame] ++ [.deliver p] ∧ s'.rxState = .idle :=
+  ⟨(seg_dup_ff hg pad h hf).trace, (seg_dup_ff hg pad h hf).idle⟩
+
+/-- A Consecutive Frame other than the last one (index `j < n`) duplicated: the copy has the wrong sequence number
+    (`WrongSequenceNumber`, reception aborted), the remaining frames are rejected; the message is lost (nothing
+    of it is delivered). -/
+theorem dup_middle_frame (hg : Geom g c0 a0 p n) (pad : Bytes) (j : Nat) (hj : j < n) (h : IdleAt c0 a0 T s)
+    (hf : Feeds s (dupAt (j + 1) (segFrames g p pad n)) s') :
+    rxTrace s' = T ++ [.err .WrongSequenceNumber] ++ List.replicate (n - j) (.err .UnexpectedConsecutiveFrame) ∧
+      s'.rxState = .idle ∧ delivered s' = delivered s := by
+  have h2 := seg_dup_mid hg pad j hj h hf
+  refine ⟨h2.trace, h2.idle, ?_⟩
+  rw [h2.delivered, h.delivered]
+  simp [List.filterMap_append, List.filterMap_cons, payload_replicate_err, payload_err]
+
+/-- The last Consecutive Frame duplicated: the message is delivered once, then the copy is rejected
+    (`UnexpectedConsecutiveFrame`). -/
+theorem dup_last_frame (hg : Geom g c0 a0 p n) (pad : Bytes) (h : IdleAt c0 a0 T s)
+    (hf : Feeds s (dupAt (n + 1) (segFrames g p pad n)) s') :
+    rxTrace s' = T ++ [.deliver p] ++ [.err .UnexpectedConsecutiveFrame] ∧ s'.rxState = .idle :=
+  ⟨(seg_dup_last hg pad h hf).trace, (seg_dup_last hg pad h hf).idle⟩
+
+/-- A Single Frame duplicated: delivered twice (no error). -/
+theorem dup_single_frame (pre d : Bytes) (esc : Bool) (cdl rdl : Nat) (hpre : pre.length = a0.rx.rxPrefixSize)
+    (hd : decode d pre.length = some ⟨.sf p.length p esc, cdl, rdl⟩) (h8 : cdl ≤ 8 ∨ esc = true)
+    (h : IdleAt c0 a0 T s) (hf : Feeds s (dupAt 0 [d]) s') :
+    rxTrace s' = T ++ [.deliver p] ++ [.deliver p] ∧ s'.rxState = .idle :=
+  ⟨(sf_dup pre p d esc cdl rdl hpre hd h8 h hf).trace, (sf_dup pre p d esc cdl rdl hpre hd h8 h hf).idle⟩
+
+end cases
+
+/-- Summary per message, for ANY well-formed encoding `fr` of `p` (any conforming sender): with one frame lost
+    nothing of `p` is delivered; with frame `k` duplicated exactly `dupOutcome |fr| k p` is delivered — `p` twice
+    for a Single Frame, once when the First Frame or the last Consecutive Frame is the duplicated one, nothing
+    for another Consecutive Frame — and the receiver is idle afterwards. -/
+theorem message_hit (pre p : Bytes) (fr : List Bytes) (c0 : Cfg) (a0 : Addr) (hw : Spec.WellFormed pre p fr)
+    (hpre : pre.length = a0.rx.rxPrefixSize) (hmax : p.length ≤ c0.maxFrameSize) (k : Nat) (hk : k < fr.length)
+    (T : List RxEv) (s s' : State) (h : IdleAt c0 a0 T s) :
+    (Feeds s (dropAt k fr) s' → delivered s' = delivered s) ∧
+    (Feeds s (dupAt k fr) s' → delivered s' = delivered s ++ dupOutcome fr.length k p ∧ s'.rxState = .idle) :=
+  ⟨msg_drop pre p fr c0 a0 hw hpre hmax k hk h, msg_dup pre p fr c0 a0 hw hpre hmax k hk h⟩
+
+/-! ## (c) everything after the hit message is received normally -/
+
+/-- From ANY receiver state — in particular the one left by the hit message, open session included — the
+    following messages `B` are all delivered, intact, once each and in order, and the receiver ends idle. (First
+    Frames and Single Frames are handled in every state: `Rx.ff_starts_session`, `Rx.sf_delivers`.) -/
+theorem c11_rest_normal (ca : Cfg) (aa : Addr) (sb sb' : State) (h : Link ca aa sb) (B : List Bytes)
+    (hs : Sendable sb B) (hf : Feeds sb (stream (Spec.segment (Spec.TxCfg.of ca aa)) B) sb') :
+    delivered sb' = delivered sb ++ B ∧ (B ≠ [] → sb'.rxState = .idle) := by
+  obtain ⟨h1, h2, _⟩ := messages_any _ _ B sb sb' (h.admissible B hs) hf
+  exact ⟨h1, h2⟩
+
+/-- … and nothing of them early: after the first `k` of these frames exactly the completely received ones. -/
+theorem c11_rest_normal_prefix (ca : Cfg) (aa : Addr) (sb sb'' : State) (h : Link ca aa sb) (B : List Bytes)
+    (hs : Sendable sb B) (k : Nat) (hf : Feeds sb ((stream (Spec.segment (Spec.TxCfg.of ca aa)) B).take k) sb'') :
+    delivered sb'' = delivered sb ++ completeIn (Spec.segment (Spec.TxCfg.of ca aa)) B k :=
+  messages_prefix _ _ B k sb sb'' (h.admissible B hs) hf
+
+/-! ## (a) the whole exchange -/
+
+/-- One frame lost. The frame number `k` lies in exactly one message `p` (`ps = A ++ p :: B`); everything that is
+    delivered is `A` then `B`: all the other payloads, byte-identical, in sending order, exactly once; `p` is
+    missing. -/
+theorem c11_frame_lost (ca : Cfg) (aa : Addr) (sb sb' : State) (h : Link ca aa sb) (ps : List Bytes)
+    (hs : Sendable sb ps) (hidle : sb.rxState = .idle) (k : Nat)
+    (hk : k < (stream (Spec.segment (Spec.TxCfg.of ca aa)) ps).length)
+    (hf : Feeds sb (dropAt k (stream (Spec.segment (Spec.TxCfg.of ca aa)) ps)) sb') :
+    ∃ A p B k', ps = A ++ p :: B ∧ k' < (Spec.segment (Spec.TxCfg.of ca aa) p).length ∧
+      k = (stream (Spec.segment (Spec.TxCfg.of ca aa)) A).length + k' ∧
+      delivered sb' = delivered sb ++ (A ++ B) :=
+  stream_dropAt _ _ ps k hk sb sb' (h.admissible ps hs) hidle hf
+
+/-- One frame duplicated. With `ps = A ++ p :: B` and `k'` the position of the frame inside `p`: delivered are
+    `A`, then `dupOutcome … k' p` (= `[p, p]` if `p` is a Single Frame message, `[p]` if the First Frame or the last
+    Consecutive Frame was duplicated, `[]` otherwise), then `B`. -/
+theorem c11_frame_duplicated (ca : Cfg) (aa : Addr) (sb sb' : State) (h : Link ca aa sb) (ps : List Bytes)
+    (hs : Sendable sb ps) (hidle : sb.rxState = .idle) (k : Nat)
+    (hk : k < (stream (Spec.segment (Spec.TxCfg.of ca aa)) ps).length)
+    (hf : Feeds sb (dupAt k (stream (Spec.segment (Spec.TxCfg.of ca aa)) ps)) sb') :
+    ∃ A p B k', ps = A ++ p :: B ∧ k' < (Spec.segment (Spec.TxCfg.of ca aa) p).length ∧
+      k = (stream (Spec.segment (Spec.TxCfg.of ca aa)) A).length + k' ∧
+      delivered sb' = delivered sb ++
+        (A ++ dupOutcome (Spec.segment (Spec.TxCfg.of ca aa) p).length k' p ++ B) :=
+  stream_dupAt _ _ ps k hk sb sb' (h.admissible ps hs) hidle hf
+
+/-- C11, receiver side. `F'` is the frame stream of `ps` with ONE frame lost or duplicated. Then what the receiver
+    delivers (`L`, after what it had delivered before) is obtained from `ps = A ++ p :: B` by deleting the one hit
+    message `p` (`L = A ++ B`), or is `ps` itself, or — only for a duplication hitting a Single Frame message — has
+    `p` twice in a row. In particular every delivered payload is one of `ps`, byte-identical, never truncated,
+    merged or corrupted, and the order is the sending order. -/
+theorem c11_never_corrupt (ca : Cfg) (aa : Addr) (sb sb' : State) (h : Link ca aa sb) (ps : List Bytes)
+    (hs : Sendable sb ps) (hidle : sb.rxState = .idle) (k : Nat)
+    (hk : k < (stream (Spec.segment (Spec.TxCfg.of ca aa)) ps).length) (F' : List Bytes)
+    (hF : F' = dropAt k (stream (Spec.segment (Spec.TxCfg.of ca aa)) ps) ∨
+          F' = dupAt k (stream (Spec.segment (Spec.TxCfg.of ca aa)) ps))
+    (hf : Feeds sb F' sb') :
+    ∃ A p B L, ps = A ++ p :: B ∧ delivered sb' = delivered sb ++ L ∧
+      (L = A ++ B ∨ L = ps ∨
+        (L = A ++ [p, p] ++ B ∧ F' = dupAt k (stream (Spec.segment (Spec.TxCfg.of ca aa)) ps) ∧
+          (Spec.segment (Spec.TxCfg.of ca aa) p).length = 1)) ∧
+      (∀ q ∈ L, q ∈ ps) := by
+  rcases hF with hF | hF
+  · subst hF
+    obtain ⟨A, p, B, k', he, _, _, hd⟩ := c11_frame_lost ca aa sb sb' h ps hs hidle k hk hf
+    exact ⟨A, p, B, A ++ B, he, hd, Or.inl rfl, (drop_outcome A B ps p he).1⟩
+  · subst hF
+    obtain ⟨A, p, B, k', he, _, _, hd⟩ := c11_frame_duplicated ca aa sb sb' h ps hs hidle k hk hf
+    obtain ⟨hL, hmem⟩ := dup_outcome A B ps p (Spec.segment (Spec.TxCfg.of ca aa) p).length k' he
+    refine ⟨A, p, B, _, he, hd, ?_, hmem⟩
+    rcases hL with h0 | h1 | ⟨h2, hl⟩
+    · exact Or.inl h0
+    · exact Or.inr (Or.inl h1)
+    · exact Or.inr (Or.inr ⟨h2, rfl, hl⟩)
+
+/-- with a lost frame the deliveries are a subsequence of what was sent -/
+theorem lost_is_sublist (A B : List Bytes) (p : Bytes) : (A ++ B).Sublist (A ++ p :: B) :=
+  (drop_outcome A B _ p rfl).2
+
+/-! ### through the address filter, in terms of the rx queue -/
+
+/-- The same for CAN messages on the bus (`ms`: any messages of the sender — any dlc/fd/brs — whose data fields are
+    the frame stream of `ps`) going through the receiver's address filter with nothing in between: the rx queue,
+    i.e. what `recv()` will return, grows by exactly `L`. -/
+theorem c11_never_corrupt_wire (ca : Cfg) (aa : Addr) (sb : State) (h : Link ca aa sb) (ps : List Bytes)
+    (hs : Sendable sb ps) (hidle : sb.rxState = .idle) (ms : List CanMsg) (hfrom : FromSender aa ms)
+    (hdata : ms.map (·.data) = stream (Spec.segment (Spec.TxCfg.of ca aa)) ps) (k : Nat) (hk : k < ms.length)
+    (ms' : List CanMsg) (hF : ms' = dropAt k ms ∨ ms' = dupAt k ms) :
+    ∃ A p B L, ps = A ++ p :: B ∧ (linkFeed sb ms').rxQueue = sb.rxQueue ++ L ∧
+      (L = A ++ B ∨ L = ps ∨
+        (L = A ++ [p, p] ++ B ∧ ms' = dupAt k ms ∧ (Spec.segment (Spec.TxCfg.of ca aa) p).length = 1)) ∧
+      (∀ q ∈ L, q ∈ ps) := by
+  have hk' : k < (stream (Spec.segment (Spec.TxCfg.of ca aa)) ps).length := by
+    rw [← hdata, List.length_map]; exact hk
+  have hin : ∀ l : List CanMsg, (∀ m ∈ l, m ∈ ms) → linkFeed sb l = feed sb l := fun l hl =>
+    linkFeed_stream ca aa sb h ps l (fun m hm => hfrom m (hl m hm)) (by
+      intro m hm
+      have : m.data ∈ ms.map (·.data) := List.mem_map_of_mem (hl m hm)
+      rwa [hdata] at this)
+  rcases hF with hF | hF
+  · subst hF
+    have hf := feeds_feed (dropAt k ms) sb
+    rw [map_dropAt, hdata] at hf
+    obtain ⟨A, p, B, k', he, _, _, hd⟩ := c11_frame_lost ca aa sb _ h ps hs hidle k hk' hf
+    refine ⟨A, p, B, A ++ B, he, ?_, Or.inl rfl, (drop_outcome A B ps p he).1⟩
+    rw [hin _ (mem_dropAt k ms)]
+    exact feed_queue_of_delivered sb _ _ hd
+  · subst hF
+    have hf := feeds_feed (dupAt k ms) sb
+    rw [map_dupAt, hdata] at hf
+    obtain ⟨A, p, B, k', he, _, _, hd⟩ := c11_frame_duplicated ca aa sb _ h ps hs hidle k hk' hf
+    obtain ⟨hL, hmem⟩ := dup_outcome A B ps p (Spec.segment (Spec.TxCfg.of ca aa) p).length k' he
+    refine ⟨A, p, B, _, he, ?_, ?_, hmem⟩
+    · rw [hin _ (mem_dupAt k ms)]
+      exact feed_queue_of_delivered sb _ _ hd
+    · rcases hL with h0 | h1 | ⟨h2, hl⟩
+      · exact Or.inl h0
+      · exact Or.inr (Or.inl h1)
+      · exact Or.inr (Or.inr ⟨h2, rfl, hl⟩)
+
+/-! ## Non-vacuity: concrete exchanges -/
+
+def exTx : Half :=
+  { mode := .n11, txid := some 0x123, rxid := some 0x456, ta := none, sa := none, ae := none,
+    physId := 0, funcId := 0, rxOnly := false, txOnly := false }
+def exA : Addr := { tx := exTx, rx := exTx }
+def exCa : Cfg := {}
+/-- receiver: default configuration (TX_DL 8, blocksize 8, max_frame_size 4095), mirrored address -/
+def sB : State := State.init {} { tx := Spec.mirror exTx, rx := Spec.mirror exTx }
+/-- two messages: 20 bytes (frames 0,1,2: First Frame, two Consecutive Frames) and 3 bytes (frame 3: Single Frame) -/
+def exP1 : Bytes := (List.range 20).map UInt8.ofNat
+def exP2 : Bytes := [0xAA, 0xBB, 0xCC]
+def exF : List CanMsg := ([exP1, exP2].map (wire exCa exA)).flatten
+
+example : Link exCa exA sB := ⟨by decide, by decide, rfl⟩
+example : Sendable sB [exP1, exP2] := by unfold Sendable; decide
+example : sB.rxState = .idle := by decide
+example : FromSender exA exF := wire_fromSender exCa exA _
+example : exF.map (·.data) =
+    [[0x10, 20, 0, 1, 2, 3, 4, 5], [0x21, 6, 7, 8, 9, 10, 11, 12], [0x22, 13, 14, 15, 16, 17, 18, 19],
+     [3, 0xAA, 0xBB, 0xCC]] := by decide
+-- no fault
+example : (linkFeed sB exF).rxQueue = [exP1, exP2] := by decide
+-- frame 0 (First Frame) lost: both Consecutive Frames rejected, second message received
+example : (linkFeed sB (dropAt 0 exF)).rxQueue = [exP2] ∧
+    (linkFeed sB (dropAt 0 exF)).log =
+      [.deliver exP2, .err 0 .UnexpectedConsecutiveFrame, .err 0 .UnexpectedConsecutiveFrame] := by decide
+-- frame 1 (middle Consecutive Frame) lost: WrongSequenceNumber, second message received
+example : (linkFeed sB (dropAt 1 exF)).rxQueue = [exP2] ∧
+    (linkFeed sB (dropAt 1 exF)).log = [.deliver exP2, .err 0 .WrongSequenceNumber] := by decide
+-- frame 2 (last Consecutive Frame) lost: session left open, the Single Frame interrupts it and is delivered
+example : (linkFeed sB (dropAt 2 exF)).rxQueue = [exP2] ∧
+    (linkFeed sB (dropAt 2 exF)).log = [.err 0 .InterruptedWithSingleFrame, .deliver exP2] := by decide
+-- frame 3 (Single Frame) lost: simply missing
+example : (linkFeed sB (dropAt 3 exF)).rxQueue = [exP1] ∧ (linkFeed sB (dropAt 3 exF)).log = [.deliver exP1] := by
+  decide
+-- duplications
+example : (linkFeed sB (dupAt 0 exF)).rxQueue = [exP1, exP2] ∧
+    (linkFeed sB (dupAt 0 exF)).log = [.deliver exP2, .deliver exP1, .err 0 .InterruptedWithFirstFrame] := by decide
+example : (linkFeed sB (dupAt 1 exF)).rxQueue = [exP2] ∧
+    (linkFeed sB (dupAt 1 exF)).log =
+      [.deliver exP2, .err 0 .UnexpectedConsecutiveFrame, .err 0 .WrongSequenceNumber] := by decide
+example : (linkFeed sB (dupAt 2 exF)).rxQueue = [exP1, exP2] ∧
+    (linkFeed sB (dupAt 2 exF)).log = [.deliver exP2, .err 0 .UnexpectedConsecutiveFrame, .deliver exP1] := by decide
+example : (linkFeed sB (dupAt 3 exF)).rxQueue = [exP1, exP2, exP2] := by decide
+example : dupOutcome 3 1 exP1 = [] ∧ dupOutcome 3 0 exP1 = [exP1] ∧ dupOutcome 3 2 exP1 = [exP1] ∧
+    dupOutcome 1 0 exP2 = [exP2, exP2] := by decide
+
+/-- the shape of the first message: `segFrames` with `n = 1` full Consecutive Frame before the last one -/
+example : Spec.segment (Spec.TxCfg.of exCa exA) exP1 = segFrames (Spec.streamCfg 8 []) exP1 [] 1 := by decide
+example : Geom (Spec.streamCfg 8 []) sB.cfg sB.addr exP1 1 :=
+  ⟨by decide, by decide, by decide, by decide, by decide⟩
+example : IdleAt sB.cfg sB.addr [] sB := ⟨by decide, rfl, rfl, by decide⟩
+/-- hypotheses of `message_hit` / `c11_never_corrupt` on this exchange, and a faulty run as a `Feeds` -/
+example : Spec.WellFormed exA.tx.txPrefix exP1 (Spec.segment (Spec.TxCfg.of exCa exA) exP1) :=
+  (Link.admissible (sb := sB) ⟨by decide, by decide, rfl⟩ [exP1] (by unfold Sendable; decide)).hwf exP1 (by simp)
+example : 1 < (stream (Spec.segment (Spec.TxCfg.of exCa exA)) [exP1, exP2]).length := by decide
+example : Feeds sB (dropAt 1 (stream (Spec.segment (Spec.TxCfg.of exCa exA)) [exP1, exP2])) (feed sB (dropAt 1 exF)) := by
+  have := feeds_feed (dropAt 1 exF) sB
+  rwa [map_dropAt, exF, wire_data] at this
+example : delivered (feed sB (dropAt 1 exF)) = [exP2] ∧ delivered (feed sB (dupAt 3 exF)) = [exP1, exP2, exP2] := by
+  decide
+
+/-- wrap-around: 125 bytes = First Frame + 17 Consecutive Frames (SN 1..15, 0, 1); the Consecutive Frame with
+    SN 0 (frame 16) lost or duplicated, followed by a second message -/
+def exLong : Bytes := (List.range 125).map UInt8.ofNat
+def exG : List CanMsg := ([exLong, exP2].map (wire exCa exA)).flatten
+example : exG.length = 19 ∧ (exG[16]?).map (·.data) = some [0x20, 111, 112, 113, 114, 115, 116, 117] := by
+  decide +kernel
+example : (linkFeed sB exG).rxQueue = [exLong, exP2] := by decide +kernel
+example : (linkFeed sB (dropAt 16 exG)).rxQueue = [exP2] := by decide +kernel
+example : (linkFeed sB (dupAt 16 exG)).rxQueue = [exP2] := by decide +kernel
+example : (linkFeed sB (dupAt 17 exG)).rxQueue = [exLong, exP2] := by decide +kernel
 
 end Isotp.C11
+
+#print axioms Isotp.C11.sn_duplicate
+#print axioms Isotp.C11.sn_after_loss
+#print axioms Isotp.C11.sn_index
+#print axioms Isotp.C11.segment_shapes
+#print axioms Isotp.C11.complete_message
+#print axioms Isotp.C11.drop_first_frame
+#print axioms Isotp.C11.drop_middle_frame
+#print axioms Isotp.C11.drop_last_frame
+#print axioms Isotp.C11.next_segmented_after_open_session
+#print axioms Isotp.C11.next_single_after_open_session
+#print axioms Isotp.C11.drop_single_frame
+#print axioms Isotp.C11.dup_first_frame
+#print axioms Isotp.C11.dup_middle_frame
+#print axioms Isotp.C11.dup_last_frame
+#print axioms Isotp.C11.dup_single_frame
+#print axioms Isotp.C11.message_hit
+#print axioms Isotp.C11.c11_rest_normal
+#print axioms Isotp.C11.c11_rest_normal_prefix
+#print axioms Isotp.C11.c11_frame_lost
+#print axioms Isotp.C11.c11_frame_duplicated
+#print axioms Isotp.C11.c11_never_corrupt
+#print axioms Isotp.C11.c11_never_corrupt_wire
